@@ -24,11 +24,11 @@ Your task: make ONE small source change to the library under {wt}/pytorch_wavele
   (a) still imports and runs (it "compiles"),
   (b) still passes the EXISTING test suite: the tests that pass without your change must still pass with it. Check with:
         cd {wt} && PYTHONPATH={wt} /venv/bin/python -m pytest -q -p no:cacheprovider --timeout=900 -x -q tests/<relevant files> 
-      (run at least the test files that exercise the code you touched, e.g. tests/test_dwt.py tests/test_dwt1d.py tests/test_dtcwt.py tests/test_scat.py tests/test_swt.py; note that some tests already fail WITHOUT your change - compare against the unmodified state with `git stash` / `git diff`; tests that already fail don't count),
+      (run at least the test files that exercise the code you touched, e.g. tests/test_dwt.py tests/test_dwt1d.py tests/test_dtcwt.py tests/test_scat.py tests/test_swt.py; note that some tests already fail WITHOUT your change - compare against the unmodified state, e.g. a `git archive HEAD | tar -x -C <dir>` export or `git diff > p.diff; git apply -R p.diff; ...; git apply p.diff` - do NOT use `git stash`: the stash is shared by every worktree of the repository and other people are working in sibling worktrees; tests that already fail don't count; tests/test_scat.py and tests/test_swt.py do not exist, the scattering tests are tests/test_scatnet_fwd.py and tests/test_scatnet_bwd.py),
   (c) makes the property above FALSE for some input/configuration.
 The change should look like a plausible mistake or "optimisation" a maintainer could commit, and it must need something SPECIFIC to manifest - an unusual size (odd, short, not a multiple of 4...), a particular mode/filter-length combination, a multi-step sequence of calls, a particular subset of arguments requiring grad, several channels or batch items, two cooperating sites that each look fine alone, etc. - NOT something that ordinary use (e.g. a 64x64 input with db2) would expose at once, and not something the existing tests catch. Prefer changes whose effect is a silently wrong NUMBER (or wrong shape/dtype/mutation, depending on the property) rather than a crash. Do not edit tests. {extra}
 
-Also write a demonstration {wt}/_demo/demo.py: a small standalone program that exits 0 (prints PASS) on the ORIGINAL code and exits non-zero (prints FAIL and what differs) WITH your change, by checking the property itself on the triggering input (e.g. comparing with PyWavelets / the dtcwt package / a numerically computed Jacobian / a second call), using `PYTHONPATH` to pick the library.  Verify both directions yourself: run it with your change (must fail), then `git stash`, run it again (must pass), then `git stash pop`.
+Also write a demonstration {wt}/_demo/demo.py: a small standalone program that exits 0 (prints PASS) on the ORIGINAL code and exits non-zero (prints FAIL and what differs) WITH your change, by checking the property itself on the triggering input (e.g. comparing with PyWavelets / the dtcwt package / a numerically computed Jacobian / a second call), using `PYTHONPATH` to pick the library.  Verify both directions yourself: run it with your change (must fail), then undo your change with `git diff -- pytorch_wavelets > /tmp/<unique>.diff; git apply -R /tmp/<unique>.diff`, run it again (must pass), then re-apply with `git apply /tmp/<unique>.diff` (never `git stash`: it is shared between worktrees).
 
 Deliver, at the end:
   1. {wt}/_demo/patch.diff   = output of `git -C {wt} diff -- pytorch_wavelets` (the change only, not the demo),
